@@ -188,13 +188,21 @@ where
     K: Hash + Eq,
     DFN: FnMut(I::Item, &I::Item),
 {
-    let mut candidates: HashMap<_, Vec<_>> = HashMap::new();
+    // Groups are kept in order of first occurrence, such that the reported diagnostics do not
+    // depend on the iteration order of a hash map.
+    let mut index: HashMap<K, usize> = HashMap::new();
+    let mut groups: Vec<Vec<I::Item>> = Vec::new();
 
     for elem in iter {
-        candidates.entry(key_fn(&elem)).or_default().push(elem);
+        let idx = *index.entry(key_fn(&elem)).or_insert_with(|| {
+            groups.push(Vec::new());
+            groups.len() - 1
+        });
+
+        groups[idx].push(elem);
     }
 
-    for (_, candidates) in candidates {
+    for candidates in groups {
         if candidates.len() <= 1 {
             continue;
         }
